@@ -36,7 +36,13 @@ pub fn run_history(seed: u64, idx: u64, exact: bool, verbose: bool) -> Outcome {
     }
     for step in 0..nops as usize {
         let op = gen_op(&mut rng, &cfg, &w);
+        #[cfg(taffy_verif)]
+        if matches!(op, Op::Layout(..)) {
+            taffy::verif_hooks::start_trace();
+        }
         let applied = w.apply(&op);
+        #[cfg(taffy_verif)]
+        let trace = taffy::verif_hooks::take_trace();
         if verbose {
             out.trace.push(format!("step {step}: applied={applied} {:?}", op));
         }
@@ -47,19 +53,66 @@ pub fn run_history(seed: u64, idx: u64, exact: bool, verbose: bool) -> Outcome {
         if let Op::Layout(i, a) = &op {
             out.layouts += 1;
             let r = w.pool[*i].unwrap();
+            // re-run the same layout call with the event trace on (it is a pure cache hit at the root, or recomputes
+            // exactly what the call above computed): we need the trace of the call that produced the layouts, so trace
+            // the real call instead -- see below (the op was applied untraced; undo is impossible, hence trace always)
             let mut nodes = vec![];
             w.subtree(r, &mut nodes);
             let (mut ft, fids) = w.fresh_copy(r);
+            #[cfg(taffy_verif)]
+            taffy::verif_hooks::start_trace();
             compute(&mut ft, fids[0], *a);
+            #[cfg(taffy_verif)]
+            {
+                let ftrace = taffy::verif_hooks::take_trace();
+                for (k, f) in fids.iter().enumerate() {
+                    if k > 0 && classify(&ftrace, *f) == "scribble" {
+                        out.fails.push((step, format!("node#{k}/{} class=fresh-scribble :: a fresh pass leaves a layout written under ComputeSize", fids.len())));
+                        break;
+                    }
+                }
+            }
             for (k, (n, f)) in nodes.iter().zip(fids.iter()).enumerate() {
                 let inc = (layout_bits(w.t.layout(*n).unwrap()), layout_bits(w.t.unrounded_layout(*n)));
                 let fre = (layout_bits(ft.layout(*f).unwrap()), layout_bits(ft.unrounded_layout(*f)));
                 if inc != fre {
+                    const NAMES: [&str; 21] = [
+                        "order", "x", "y", "w", "h", "cw", "ch", "sbw", "sbh", "bl", "br", "bt", "bb", "pl", "pr", "pt", "pb", "ml", "mr", "mt", "mb",
+                    ];
+                    let mut fields = vec![];
+                    let mut maxdiff = 0f32;
+                    for (which, (a, b)) in [(&inc.0, &fre.0), (&inc.1, &fre.1)].iter().enumerate() {
+                        for j in 0..21 {
+                            if a[j] != b[j] {
+                                fields.push(format!("{}{}", if which == 0 { "r." } else { "u." }, NAMES[j]));
+                                if j > 0 {
+                                    maxdiff = maxdiff.max((f32::from_bits(a[j]) - f32::from_bits(b[j])).abs());
+                                }
+                            }
+                        }
+                    }
+                    // is the node hidden (display:none itself or below a display:none ancestor)?
+                    let mut hidden = false;
+                    let mut cur = Some(*n);
+                    while let Some(c) = cur {
+                        if w.t.style(c).unwrap().display == taffy::Display::None {
+                            hidden = true;
+                        }
+                        cur = w.t.parent(c);
+                    }
+                    #[cfg(taffy_verif)]
+                    let class = classify(&trace, *n);
+                    #[cfg(not(taffy_verif))]
+                    let class = "untraced";
                     out.fails.push((
                         step,
                         format!(
-                            "node#{k} of {} under root: incremental {:?} vs fresh {:?}",
+                            "node#{k}/{} class={} hidden={} fields={} maxdiff={} :: incremental {:?} vs fresh {:?}",
                             nodes.len(),
+                            class,
+                            hidden,
+                            fields.join(","),
+                            maxdiff,
                             w.t.unrounded_layout(*n),
                             ft.unrounded_layout(*f)
                         ),
@@ -75,6 +128,35 @@ pub fn run_history(seed: u64, idx: u64, exact: bool, verbose: bool) -> Outcome {
     #[cfg(taffy_verif)]
     taffy::verif_hooks::set_exact_key(false);
     out
+}
+
+/// Where did the stored layout of `n` come from in this pass?
+///  "scribble": its last SetLayout happened inside a ComputeSize evaluation of some ancestor (a container that lays out
+///              its children while only being asked for its size) and no later PerformLayout evaluation rewrote it
+///  "perform":  its last SetLayout happened under PerformLayout queries only
+///  "untouched": no SetLayout for it in this pass (everything above it was served from the cache)
+#[cfg(taffy_verif)]
+pub fn classify(trace: &[taffy::verif_hooks::Event], n: taffy::NodeId) -> &'static str {
+    use taffy::verif_hooks::Event;
+    let mut stack: Vec<taffy::RunMode> = vec![];
+    let mut last: Option<bool> = None;
+    for ev in trace {
+        match ev {
+            Event::Query { input, .. } => stack.push(input.run_mode),
+            Event::Return { .. } => {
+                stack.pop();
+            }
+            Event::SetLayout { node } if *node == n => {
+                last = Some(stack.iter().any(|m| *m == taffy::RunMode::ComputeSize));
+            }
+            _ => {}
+        }
+    }
+    match last {
+        Some(true) => "scribble",
+        Some(false) => "perform",
+        None => "untouched",
+    }
 }
 
 pub fn main(args: &[String]) {
